@@ -52,6 +52,32 @@ Definition parse_color (text : str) : option str :=
       else match assoc col ansi_color_aliases with
       | Some v => Some v
       | None =>
+          if negb (hex36_b col) then None
+          else if len col =? 6 then Some col
+          else match col with
+               | [c0; c1; c2] => Some [c0; c0; c1; c1; c2; c2]
+               | _ => None
+               end
+      end
+    else if str_eqb text [] || str_eqb text s_default then Some text
+    else None
+  end end.
+
+(* parse_color as it stood before the fix d87ad65 (no hexadecimal test) *)
+Definition parse_color_pinned (text : str) : option str :=
+  if mem_str text ansi_color_names then Some text
+  else match assoc text ansi_color_aliases with
+  | Some v => Some v
+  | None =>
+  match assoc (lower text) named_colors_lower with
+  | Some v => Some v
+  | None =>
+    if str_eqb (slice2 text 0 1) [35] then
+      let col := slice_from text 1 in
+      if mem_str col ansi_color_names then Some col
+      else match assoc col ansi_color_aliases with
+      | Some v => Some v
+      | None =>
           if len col =? 6 then Some col
           else match col with
                | [c0; c1; c2] => Some [c0; c0; c1; c1; c2; c2]
